@@ -16,7 +16,7 @@ GEOMS = ['page-edge', 'cache-alias', 'window-cut', 'far', 'top', 'magic', 'many'
 
 
 def plan(tier: str, seed: int) -> List[Dict[str, Any]]:
-    shards, per = (16, 170) if tier == 'quick' else (64, 1300)
+    shards, per = (16, 320) if tier == 'quick' else (64, 2500)
     return [{'seed': seed, 'shard': i, 'cases': per, 'tier': tier, 'timeout_s': 900 if tier == 'quick' else 7200}
             for i in range(shards)]
 
